@@ -123,6 +123,7 @@ Definition raises (c : string) : option (list exc) :=
   | "<raise ValueError>" => Some [EValueError]
   | "<datetime subtraction>" => Some [ETypeError]   (* naive minus aware datetime *)
   | "value.astimezone" | "value.astimezone(datetime.timezone.utc).replace"   (* _naive_utc *)
+  | "logging.getLogger('compliance_check').error"
   | "<str method>" | "AASDataChecker" | "DataChecker" | "aasx.DictSupplementaryFileContainer"
   | "checker2.check" | "create_example" | "create_example_aas_binding" | "datetime.datetime"
   | "file_to_be_checked.close" | "file_to_be_checked.seek" | "io.TextIOWrapper" | "isinstance"
@@ -197,3 +198,28 @@ Definition missing (methods : list (string * (list string * list string)))
 Definition record := string -> nat.      (* attribute -> (token of its) value *)
 Definition compare_by (attrs : list string) (a b : record) : bool :=
   forallb (fun x => Nat.eqb (a x) (b x)) attrs.
+
+(* AASDataChecker refuses to compare two SubmodelElementLists unless both are ordered: the methods listed in
+   the generated [unordered_raises] raise NotImplementedError then (before looking at the elements) *)
+Inductive cmp := CmpEqual | CmpDifferent | CmpNotImplemented.
+Definition compare_obj (unordered_raises : list string) (m : string) (ordered_a ordered_b : bool)
+           (attrs : list string) (a b : record) : cmp :=
+  if mem_str m unordered_raises && (negb ordered_a || negb ordered_b) then CmpNotImplemented
+  else if compare_by attrs a b then CmpEqual else CmpDifferent.
+
+(* status of the comparing step of a check function, given whether the handlers around its call of
+   check_object_store catch NotImplementedError (and then set FAILED: checked by the translator);
+   None = the exception leaves the check function *)
+Definition compare_step (catches : bool) (r : cmp) : option status :=
+  match r with
+  | CmpEqual => Some SUCCESS
+  | CmpDifferent => Some FAILED
+  | CmpNotImplemented => if catches then Some FAILED else None
+  end.
+
+(* the handlers around the call of check_object_store in a translated function *)
+Definition compare_handlers (functions : list (string * list site)) (f : string) : option (list (list exc)) :=
+  match fassoc f functions with
+  | None => None
+  | Some sites => option_map handlers (find (fun s => String.eqb (callee s) "checker.check_object_store") sites)
+  end.
